@@ -80,6 +80,11 @@ def rule_b(repo, chk):
         if k == 'KEYWORD_ONLY':
             w = gate(gk, r, lambda e, pol: (not pol) and norm(e) == 'param_appeared')
             chk.ob('C11.b', w is None, r, 'keyword-only <=> a "*" or *args precedes the parameter', w or '')
+    for r in stmts_in(gk, ast.Return):
+        if gate(gk, r, lambda e, pol: pol and norm(e) == "p == '/'") is None:
+            chk.ob('C11.b', norm(r.value).endswith('POSITIONAL_ONLY'), r, 'a parameter followed by "/" is POSITIONAL_ONLY', norm(r.value))
+        if gate(gk, r, lambda e, pol: pol and norm(e) in ("p == '*'", 'p.star_count')) is None:
+            chk.ob('C11.b', norm(r.value).endswith('KEYWORD_ONLY'), r, 'a parameter preceded by "*"/*args is KEYWORD_ONLY', norm(r.value))
     ts = repo.find(SIG, '_SignatureMixin.to_string.param_strings')
     c = cfg_of(ts)
     ys = [y for y in own_nodes(ts) if isinstance(y, ast.Yield)]
